@@ -1,0 +1,54 @@
+//go:build verif
+
+// Contracts for package pebbledb, read by /verif/gvc (comment-only file; it declares
+// nothing and is compiled only with -tags verif).
+package pebbledb
+
+// ---- C10: the pebble iterator wrapper behaves as the ordered-map iterator of kvi ----------
+// Valid() is the library cursor's validity; while valid, Key()/Value() are the cursor's
+// key and value. Seek(id): smallest stored key at or after id; SeekReverse(id): largest
+// stored key at or before id (the last key when every key is below id); Next: the
+// neighbouring key in the current direction. Assumed: pebble's iterator (spec/kvlib.gvc)
+// and copyBytes.
+
+//@ func copyBytes
+//@   trusted
+//@   pure
+//@   ensures same: result == in
+
+//@ func (*pebbleIterator).Seek
+//@   property C10
+//@   option prelude=kv,kvlib
+//@   modifies KV.it H.kvi_pebbledb.pebbleIterator.
+//@   requires nonnil: pit != nil && pit.iter != nil
+//@   ensures valid: itvalid() <==> (exists j:Str :: kvhas(j) && ble(id, j))
+//@   ensures pos: itvalid() ==> pit.key == itpos() && pit.value == kvval(itpos()) && kvhas(itpos()) && ble(id, itpos()) && (forall j:Str :: kvhas(j) && ble(id, j) ==> ble(itpos(), j))
+//@   ensures dir: pit.forward
+
+//@ func (*pebbleIterator).SeekReverse
+//@   property C10
+//@   option prelude=kv,kvlib
+//@   modifies KV.it H.kvi_pebbledb.pebbleIterator.
+//@   requires nonnil: pit != nil && pit.iter != nil
+//@   ensures valid: itvalid() <==> (exists j:Str :: kvhas(j) && ble(j, id))
+//@   ensures pos: itvalid() ==> pit.key == itpos() && pit.value == kvval(itpos()) && kvhas(itpos()) && ble(itpos(), id) && (forall j:Str :: kvhas(j) && ble(j, id) ==> ble(j, itpos()))
+//@   ensures dir: !pit.forward
+
+//@ func (*pebbleIterator).Next
+//@   property C10
+//@   option prelude=kv,kvlib
+//@   modifies KV.it H.kvi_pebbledb.pebbleIterator.
+//@   requires nonnil: pit != nil && pit.iter != nil
+//@   requires positioned: itvalid()
+//@   let k0 = itpos()
+//@   ensures fvalid: pit.forward ==> (itvalid() <==> (exists j:Str :: kvhas(j) && blt(k0, j)))
+//@   ensures fpos: pit.forward && itvalid() ==> pit.key == itpos() && kvhas(itpos()) && blt(k0, itpos()) && (forall j:Str :: kvhas(j) && blt(k0, j) ==> ble(itpos(), j))
+//@   ensures rvalid: !pit.forward ==> (itvalid() <==> (exists j:Str :: kvhas(j) && blt(j, k0)))
+//@   ensures rpos: !pit.forward && itvalid() ==> pit.key == itpos() && kvhas(itpos()) && blt(itpos(), k0) && (forall j:Str :: kvhas(j) && blt(j, k0) ==> ble(j, itpos()))
+
+//@ func (*pebbleIterator).Valid
+//@   property C10
+//@   option prelude=kv,kvlib
+//@   pure
+//@   requires nonnil: pit != nil && pit.iter != nil
+//@   ensures def: result <==> itvalid()
